@@ -10,9 +10,11 @@ from oracles.rfc3986 import resolve as rfc_resolve
 from oracles.whatwg_scheme import whatwg_scheme
 import trace as tr
 
-LEAN_MODULES = ["FeedVerif.Props.C05", "FeedVerif.Model.BaseDriver"]
+LEAN_MODULES = ["FeedVerif.Props.C05", "FeedVerif.Model.BaseDriver", "FeedVerif.Model.MixinDriver"]
 CORR_OBLIGATIONS = ["M-base.step ~ baseuri / lang / stack depths of the real parser after every start and end tag (both back ends), "
-                    "real make_safe_absolute_uri / _urljoin results supplied as oracle values"]
+                    "real make_safe_absolute_uri / _urljoin results supplied as oracle values",
+                    "M-mixin (stage 4: _start_link / _end_link / pop('link'), _start_guid / _end_guid with resolve_uri as a recorded oracle) ~ the real handler machine on documents with "
+                    "link / guid / id elements under nested xml:base: state after every tag, whole result"]
 TRUSTED = ["Lean model FeedVerif/Model/Base.lean of mixin.py:231-254, 354-362 (make_safe_absolute_uri and _urljoin are parameters)"]
 ASSUMPTIONS = ["urljoin = RFC 3986 is used only by the search oracle and only on the measured deviation-free sublanguage (DESIGN.md, C05 residual)",
                "expat / sgmllib deliver balanced start/end events for well-formed documents (library)"]
@@ -301,8 +303,11 @@ def correspondence(ctx):
             if len(dis) < 20:
                 dis.append({"doc": m["doc"], "loose": m["loose"], "at": m["at"], "line": l,
                             "model": g, "impl": e})
-    return {"cases": len(lines), "distinct": len(set(zip(lines, expl))), "unmodelled": 0, "disagreements": dis, "distribution": dist,
-            "samples": [{"line": lines[i], "impl": expl[i]} for i in range(min(3, len(lines)))]}
+    res = {"cases": len(lines), "distinct": len(set(zip(lines, expl))), "unmodelled": 0, "disagreements": dis, "distribution": dist,
+           "samples": [{"line": lines[i], "impl": expl[i]} for i in range(min(3, len(lines)))]}
+    # the element-level URIs of link / guid elements: M-mixin stage 4 on documents whose links and ids sit under nested xml:base
+    import mixlib
+    return mixlib.content_corr(ctx, ctx.n(120, 1500), into=res)
 
 
 def search(ctx, focus=None):
@@ -352,10 +357,14 @@ def _getter_from_name(name):
     return get
 
 
-TECHNIQUE = "Lean 4 proof: stack-discipline theorem (every balanced block restores base URI, language and both stacks, by induction on nesting) + effective-base characterisation; per-event correspondence with both real back ends; RFC 3986 oracle search"
+TECHNIQUE = "Lean 4 proof: stack-discipline theorem (every balanced block restores base URI, language and both stacks, by induction on nesting) + effective-base characterisation + on the handler machine model: a link element's href is the join of the picked reference against the base in effect inside the element; per-event correspondence with both real back ends; RFC 3986 oracle search"
 LEVEL_TEXT = ("Kernel-checked on M-base for arbitrary make_safe_absolute_uri / _urljoin: balanced_restores (any depth, any xml:base / xml:lang values), "
               "pop_undoes_push, inv_of_absolute_root, sibling_sees_enclosing, effective_base, unsafe_xmlbase_ignored, no_xmlbase_keeps_base, effective_lang; "
-              "empty_docbase_leak_counterexample shows why the property's 'absolute base' hypothesis is needed. Tie: the model is stepped on the event "
+              "empty_docbase_leak_counterexample shows why the property's 'absolute base' hypothesis is needed. On M-mixin (stage 4, handlers hand-modelled and guarded by source "
+              "fingerprints): handler_sees_inner_base (the state a start handler runs in carries exactly M-base's state after this start tag), link_href_resolved / link_href_is_join "
+              "(whatever of url / uri / href a link element carries, the stored href is _urljoin(current base, that value)); Props/C02 guid_not_permalink_verbatim (a guid with "
+              "isPermaLink=false is NOT joined). Tie: the model is stepped on the event "
               "stream of the real strict and loose parsers (recorded by subclassing) and must reproduce baseuri, lang and stack depths after every tag.")
 LEVEL_NOTE = ("Trusted: Lean kernel + standard axioms; event recording by subclassing (tools/trace.py); the field clauses (which fields are resolved against "
-              "which base) are tied by the search only until M-mixin covers pop(); urljoin = RFC 3986 on the measured sublanguage (oracle side only).")
+              "which base) are proved for link / guid / id and the text constructs' element-level URIs (contentOutput), tied by the search only for the other URI fields (enclosures, "
+              "image / textinput / source, the extension modules); urljoin = RFC 3986 on the measured sublanguage (oracle side only).")
